@@ -610,7 +610,16 @@ def _try_shape(fn: Func, returns_none: bool) -> bool:
         return False
     h = t.handlers[0].body
     if returns_none:
-        return len(h) == 1 and isinstance(h[0], ast.Return) and (h[0].value is None or norm(h[0].value) == "None") and isinstance(t.body[0], ast.Return)
+        if len(h) == 1 and isinstance(h[0], ast.Return) and (h[0].value is None or norm(h[0].value) == "None") and isinstance(t.body[0], ast.Return):
+            return True
+        # single-exit form: `v = cls(value)` / `except ValueError: v = None` / `return v` right after the try
+        b0 = t.body[0]
+        if len(t.body) == 1 and isinstance(b0, ast.Assign) and len(b0.targets) == 1 and isinstance(b0.targets[0], ast.Name) and b0.value is calls_cls[0] and not t.orelse and not t.finalbody:
+            v = b0.targets[0].id
+            body = [x for x in fn.node.body if not (isinstance(x, ast.Expr) and isinstance(x.value, ast.Constant)) and not (isinstance(x, ast.AnnAssign) and x.value is None)]
+            if len(h) == 1 and isinstance(h[0], ast.Assign) and len(h[0].targets) == 1 and norm(h[0].targets[0]) == v and isinstance(h[0].value, ast.Constant) and h[0].value.value is None:
+                return len(body) == 2 and body[0] is t and isinstance(body[1], ast.Return) and norm(body[1].value) == v
+        return False
     return len(h) == 1 and isinstance(h[0], (ast.Pass, ast.Continue))
 
 
